@@ -12,6 +12,9 @@ META = {
     "level": "Decides the structural necessary conditions: no input value can be mistaken for the stop marker; every worker receives exactly one stop marker, also when feeding fails; map_async cannot return before every worker has returned and stored its result; a result that is a generator is drained whatever kind of callable produced it; each input item is enqueued exactly once and reaches exactly one worker through Queue.get. Does NOT decide freedom from races under all schedules (no shared mutable state other than the Queue and the deque is touched, which is what the rules pin down).",
     "note": "",
 }
+META["technique"] += "; " + 'timed / non-blocking get: only the stop marker ends a worker; per-item exception isolation'
+META["level"] += " Added after the second round of independent changes: " + "(R1) an empty queue sends the worker back to waiting; (R6) regen_iter's exception handling sits inside the package loop."
+META["technique"] += "; " + 'generic pack G on the anchored files (optional-flag shift, closures outliving a loop iteration, single-pass iterables consumed twice, %-templates built from data, in-place writes to class-level / memoised objects, generators mutating what they yielded, memo keys that are projections)'
 MOD = "pkgcore.util.thread_pool"
 UNIQUE = {"klass.sentinel", "object()", "_sentinel", "sentinel"}
 
